@@ -53,3 +53,90 @@ def re_has_nested_star(t, under=False):
     if t[0] == '*':
         return under or re_has_nested_star(t[1], True)
     return any(re_has_nested_star(x, under) for x in t[1:] if isinstance(x, list))
+
+
+# ---------------------------------------------------------------- automata
+def all_dfas(nstates, sigma):
+    """all total DFAs with states q0..q{n-1}, initial q0, over sigma (list of chars), all F"""
+    Q = ['q%d' % i for i in range(nstates)]
+    keys = [(q, a) for q in Q for a in sigma]
+    out = []
+    for targets in itertools.product(Q, repeat=len(keys)):
+        for fbits in range(2 ** nstates):
+            F = [Q[i] for i in range(nstates) if fbits >> i & 1]
+            out.append({'Q': Q, 'Sigma': list(sigma), 'delta': [[q, a, t] for (q, a), t in zip(keys, targets)], 'q0': 'q0', 'F': F})
+    return out
+
+
+def random_dfa(rng, nstates, sigma, names=None, pfinal=0.4):
+    Q = names or ['q%d' % i for i in range(nstates)]
+    delta = [[q, a, rng.choice(Q)] for q in Q for a in sigma]
+    x = rng.random()
+    if x < 0.08:
+        F = []
+    elif x < 0.16:
+        F = list(Q)
+    else:
+        F = [q for q in Q if rng.random() < pfinal]
+    return {'Q': list(Q), 'Sigma': list(sigma), 'delta': delta, 'q0': Q[0], 'F': F}
+
+
+def all_nfas(nstates, sigma, eps='_'):
+    Q = ['q%d' % i for i in range(nstates)]
+    keys = [(q, a) for q in Q for a in list(sigma) + [eps]]
+    subsets = [[Q[i] for i in range(nstates) if b >> i & 1] for b in range(2 ** nstates)]
+    out = []
+    for targets in itertools.product(subsets, repeat=len(keys)):
+        for F in subsets:
+            out.append({'Q': Q, 'Sigma': list(sigma), 'delta': [[q, a, t] for (q, a), t in zip(keys, targets) if t], 'q0': 'q0', 'F': F, 'eps': eps})
+    return out
+
+
+def random_nfa(rng, nstates, sigma, eps='_', names=None, peps=0.25, density=0.3):
+    Q = names or ['q%d' % i for i in range(nstates)]
+    delta = []
+    for q in Q:
+        for a in list(sigma) + [eps]:
+            p = peps if a == eps else density
+            ts = [t for t in Q if rng.random() < p * (2.0 / max(2, len(Q)) + 0.3)]
+            if ts:
+                delta.append([q, a, ts])
+    x = rng.random()
+    if x < 0.08:
+        F = []
+    elif x < 0.16:
+        F = list(Q)
+    else:
+        F = [q for q in Q if rng.random() < 0.35]
+    return {'Q': list(Q), 'Sigma': list(sigma), 'delta': delta, 'q0': Q[0], 'F': F, 'eps': eps}
+
+
+def words_str(sigma, n):
+    out = []
+    for k in range(n + 1):
+        out.extend(''.join(w) for w in itertools.product(sigma, repeat=k))
+    return out
+
+
+def random_words(rng, sigma, count, maxlen):
+    if not sigma:
+        return ['']
+    return [''.join(rng.choice(sigma) for _ in range(rng.randint(0, maxlen))) for _ in range(count)]
+
+
+def nfa_has_eps_cycle(c):
+    eps = c['eps']
+    g = {}
+    for (q, a, ts) in c['delta']:
+        if a == eps:
+            g.setdefault(q, set()).update(ts)
+    for s in g:
+        seen, todo = set(), list(g[s])
+        while todo:
+            x = todo.pop()
+            if x == s:
+                return True
+            if x not in seen:
+                seen.add(x)
+                todo.extend(g.get(x, ()))
+    return False
